@@ -11,7 +11,7 @@ import (
 func init() {
 	props["C07"] = func(r *Report) {
 		c07(r)
-		r.Guard("C07.R6", "every lock taken is released on every exit: connsMu and the other core locks (a lock left held makes Close or Serve block for ever)", func() { lockPairRule(r, "") })
+		r.Guard("C07.R6", "every lock taken is released on every exit: connsMu and the other core locks (a lock left held makes Close or Serve block for ever)", func() { lockPairRule(r, ""); goCaptureRule(r, "") })
 	}
 	floors["C07"] = map[string]int{"C07.R1": 6, "C07.R2": 4, "C07.R3": 4, "C07.R4": 2, "C07.R5": 4, "C07.R6": 1}
 }
@@ -364,6 +364,25 @@ func c07(r *Report) {
 				watchers++
 				r.Touch(f)
 				r.Decide("callgraph", fnName(f)+" may watch p.closing", allowed, "the request reader / the Closing() poll", "a function other than the request reader waits for shutdown ("+fnName(f)+"): whatever it does when shutdown starts (deadline, close, cancel) hits exchanges whose request modifier has already run", in.Pos())
+			}
+		}
+		// and Closing() is consulted only where a refusal harms nobody: by the accept
+		// loop, by a new handler before it creates a session, and by the exchange
+		// function for the close decision after the response modifier. A helper
+		// between the two modifiers (round trip, connect) that refuses to work once
+		// shutdown has begun turns the in-flight exchange into an error response.
+		for _, f := range w.Funcs("") {
+			for _, c := range calls(f, "(*M.Proxy).Closing") {
+				okCaller := fnName(f) == "(*M.Proxy).Serve" || fnName(f) == "(*M.Proxy).handleLoop"
+				if f == handle {
+					// only after the response modifier has run
+					for _, m := range calls(handle) {
+						if isResMod(m) && g.Before(m, c) {
+							okCaller = true
+						}
+					}
+				}
+				r.Decide("callgraph", "Closing() consulted in "+site(f, c), okCaller, "accept loop, new handler or the exchange function's close decision", "Closing() is consulted in "+fnName(f)+": a step of an exchange whose request modifier has already run can now refuse because shutdown started, and the client gets an error instead of its response", c.Pos())
 			}
 		}
 		if watchers < 2 {
